@@ -331,7 +331,47 @@ def h_text_segments(ctx):
     return Outcome("text-refused" if not vs else "text-ACCEPTED", vs, nontrivial=(what, ch, how), n=n)
 
 
+PROBES = [b"c2Vj cmV0", b"c2VjcmV0\n", b"\x00c2VjcmV0", b"c2Vj\xffcmV0", b"c2VjcmV0!!!!", b"c2Vj+cmV0", b"c2Vj/cmV0", b"A", b"AAAAA", b"c2VjcmV0", b"AQAB", b"AQ", b"AQ==", b"A!Q==",
+          b"", b"_-_-", b"\tAQAB", b"AQAB\r\n", b"AQ AB", b"QUJD*", b"====", b"AQ=B"]
+
+
+def h_after_error(ctx):
+    """The codec after a call that raised: a caller hands a wrong type (text for octets, None, a number) to one of the codec functions,
+    gets its exception - and every later call is as strict and as exact as in a fresh process."""
+    from ..history import fresh_joserfc
+    fresh_joserfc()
+    u = _util()
+    fn = ctx.choose("failing_function", ["urlsafe_b64decode", "urlsafe_b64encode", "base64_to_int", "int_to_base64", "json_b64decode", "json_b64encode", "none (control)"])
+    arg_name, arg = ctx.choose("argument", [("text", "c2VjcmV0"), ("None", None), ("int", 7), ("float", 1.5), ("list", [1]), ("memoryview", memoryview(b"AQAB"))])
+    first = "-"
+    if fn != "none (control)":
+        r0 = call(getattr(u, fn), arg)
+        first = "returned" if r0.ok else r0.etype
+    vs = []
+    n = 0
+    for s_ in PROBES:
+        r = call(u.urlsafe_b64decode, s_)
+        b, v1 = judge_decode(s_, r)
+        n += 1
+        vs += [dict(x, fingerprint=x["fingerprint"] + " [after an earlier codec call raised]", what=f"after {fn}({arg_name}) -> {first}: " + x["what"]) for x in v1]
+    for raw in (b"", b"\x00", b"secret", bytes(range(256))):
+        e = call(u.urlsafe_b64encode, raw)
+        n += 1
+        if not e.ok or e.value != b64.enc_table(raw).encode():
+            vs.append(viol("encode differs from RFC 4648 [after an earlier codec call raised]", f"after {fn}({arg_name}) -> {first}: {raw[:8]!r}"))
+    for i in (1, 255, 256, 65537, 2 ** 64):
+        r = call(u.int_to_base64, i)
+        n += 1
+        if not r.ok or r.value != b64.uint(i):
+            vs.append(viol("int encoding not minimal big-endian [after an earlier codec call raised]", f"after {fn}({arg_name}) -> {first}: {i}"))
+    r = call(u.base64_to_int, "AQ!AB")
+    if r.ok:
+        vs.append(viol("decode accepts a character outside the alphabet [after an earlier codec call raised]", f"after {fn}({arg_name}) -> {first}: base64_to_int('AQ!AB') = {r.value}"))
+    return Outcome(f"after-error:{'ok' if not vs else 'bad'}", vs, nontrivial=(fn, arg_name), n=n + 1)
+
+
 PARTS = [
+    Part("after-a-call-that-raised", h_after_error, split_depth=1),
     Part("text-segments", h_text_segments, split_depth=2),
     Part("b64-long-inputs", h_long, split_depth=1),
     Part("jwk-integer-members", h_jwk_members, split_depth=1),
@@ -343,5 +383,5 @@ PARTS = [
     Part("json-header", h_json, split_depth=1),
 ]
 for _p in PARTS:
-    if _p.name in ("int-minimal", "json-header", "int-fixed-width", "b64-long-inputs", "jwk-integer-members", "text-segments"):
+    if _p.name in ("int-minimal", "json-header", "int-fixed-width", "b64-long-inputs", "jwk-integer-members", "text-segments", "after-a-call-that-raised"):
         _p.single_bucket_ok = True
